@@ -4,3 +4,10 @@ from advpkg.x.y._n import Deep
 class User(Deep):
     def use(self, d: Deep) -> Deep:
         return d
+
+
+from advpkg.x.y._t import TiedOne, TiedTwo  # noqa: E402
+
+
+def use_tied(one: TiedOne, two: TiedTwo) -> TiedOne:
+    return one
